@@ -193,6 +193,9 @@ func (p c13) Run(c *core.Ctx, idx int) {
 	}
 	// the family of requests is independent of the schema (fixed / generated) and of the store the requests go to
 	family := (idx / 2) % 8
+	if idx%16 == 12 {
+		c13Keyless(c) // xml family, fixed schema: once per sixteen cases
+	}
 	c.SetSample(map[string]interface{}{"yang": head(s.Yang(), 800), "family": family})
 	switch family {
 	case 0, 1:
